@@ -559,3 +559,20 @@ Definition visitor_events_ok (evs : list string) : bool :=
   negb (existsb (fun e => br_prefix "?" e) evs) &&
   (length (filter (fun e => String.eqb e "join") evs) =? 1)%nat &&
   existsb (fun e => String.eqb e "readmsg") evs.
+
+(* ---------- 9. xtcp visitor: falling back to the stcp visitor ---------- *)
+
+(* client/visitor/xtcp.go handleConn: when no tunnel could be opened (ANY error of openTunnel: the fallback timeout,
+   its own 20 s timer, a closed visitor) the user connection is handed to the configured fallback visitor; it is
+   dropped only if no fallback visitor is configured.  [err]: openTunnel failed; [fallback]: FallbackTo <> "". *)
+Definition xtcp_user_conn_fate (err fallback : bool) : Z :=   (* 0 joined to the tunnel, 1 transferred to the fallback visitor, 2 closed *)
+  if err then (if fallback then 1 else 2) else 0.
+
+Definition xtcp_fallback_ok (evs : list string) : bool :=
+  match evs with
+  | [e; g; t] =>
+      br_prefix "enclosing:" e && br_suffix "err != nil" e &&
+      String.eqb g "guard:$recv.cfg.FallbackTo == """"" &&
+      String.eqb t "transfer:$recv.cfg.FallbackTo,$0"
+  | _ => false
+  end.
